@@ -237,7 +237,8 @@ fn check_stmt(v: &Verdicts, sink: &mut Sink, src: &str, w: Option<usize>, known:
                     _ => {}
                 }
             } else {
-                sink.count("skipped_first_pass_unparsable(C07 territory)", 1);
+                let top = a.kind();
+                sink.viol(&format!("second-pass-rejects-first-pass-output stmt top={}", top), "the formatter's output is not accepted by the formatter (it does not parse)", json!({"source": src, "width": w, "first": f1, "origin": origin}));
             }
         }
         _ => {}
@@ -307,7 +308,8 @@ fn check_program(v: &Verdicts, sink: &mut Sink, src: &str, w: Option<usize>, cla
                     }
                 }
             } else {
-                sink.count("skipped_first_pass_unparsable(C07 territory)", 1);
+                // the formatter's own output cannot even be read again: formatting it does not "return it unchanged"
+                sink.viol(&format!("second-pass-rejects-first-pass-output class={}", class), "the formatter's output is not accepted by the formatter (it does not parse)", json!({"source": src, "width": w, "first": f1, "origin": origin}));
             }
         }
         "C09" => {
@@ -746,7 +748,10 @@ pub fn run(which: &str, ctx: &Ctx, sink: &mut Sink) {
             if which == "C07" && i % 4 == 0 {
                 eval_equiv(sink, &stmts, w);
             }
-        } else {
+        }
+        // comment-injected programs: all of them for C09; one in four also for C07 / C08 (a statement kept as written
+        // because its comments have no slot in the tree must still be the same program, and stay put on a second pass)
+        if which == "C09" || i % 4 == 1 {
             let cls = CCLASSES[(i as usize / ctx.shard_n as usize) % CCLASSES.len()];
             let every = r.chance(1, 2);
             let (src, ncom) = inject(&stmts, cls, &mut r, every);
@@ -760,8 +765,8 @@ pub fn run(which: &str, ctx: &Ctx, sink: &mut Sink) {
         }
     }
 
-    if which == "C09" {
-        // ---- every class x a fixed set of statement kinds x widths {20, 80}
+    {
+        // ---- every class x a fixed set of statement kinds x widths {20, 80} (judged by all three properties)
         let fixed: Vec<Vec<H>> = fixed_programs();
         for (pi, prog) in fixed.iter().enumerate() {
             for (ci, cls) in CCLASSES.iter().enumerate() {
@@ -802,6 +807,14 @@ pub fn run(which: &str, ctx: &Ctx, sink: &mut Sink) {
                     out.push_str(&format!("// above {}\n", k));
                 }
                 out.push_str(l);
+                // an end-of-line comment (sometimes far longer than any width) after the last line of a statement that
+                // may also carry comments inside
+                let starts_stmt = |t: &str| !t.starts_with(' ') && !t.starts_with('}') && !t.starts_with(']') && !t.is_empty();
+                let last_of_stmt = !l.starts_with("//") && !l.is_empty() && (k + 1 == lines.len() || starts_stmt(&lines[k + 1]));
+                if last_of_stmt && r.chance(1, 3) {
+                    let pad = "x".repeat([0usize, 10, 60, 100][r.below(4)]);
+                    out.push_str(&format!("  // after {} {}", k, pad));
+                }
                 if k + 1 < lines.len() {
                     out.push('\n');
                 }
@@ -809,7 +822,7 @@ pub fn run(which: &str, ctx: &Ctx, sink: &mut Sink) {
             if scan_comments(&out).is_empty() {
                 continue;
             }
-            check_program(&v, sink, &out, None, &format!("multi:{}+P1", inner.name()), if i % 5 == 0 { cli.as_deref() } else { None }, "multi");
+            check_program(&v, sink, &out, None, &format!("multi:{}+P1+P2", inner.name()), if i % 2 == 0 { cli.as_deref() } else { None }, "multi");
         }
     }
 }
